@@ -114,7 +114,9 @@ class EngineBase(PathMgr):
         return d
 
     def dict_arr(self, d):
-        return z3.Select(self.st.dct, Val.r(d))
+        d = self.canon(d)
+        dct = self.strip_fresh(self.st.dct) if self.is_old(d) else self.st.dct
+        return smt.simp(z3.Select(dct, Val.r(d)))
 
     def dict_get(self, d, k):
         """value or ABSENT"""
@@ -214,6 +216,8 @@ class EngineBase(PathMgr):
 
     def require_class(self, v, what: str = '') -> ClassInfo:
         c = self.class_of(v)
+        if c is not None and c.builtin and c.name == 'object':
+            c = None
         if c is None:
             # last resort: ask the solver for a unique class among those touched on this path
             if self.kind_of(v, force=True) != 'ref':
@@ -223,6 +227,8 @@ class EngineBase(PathMgr):
             cands = []
             for cid in sorted(self.classes_used, reverse=True):
                 K = self.static_objs[cid]
+                if K.name == 'object':
+                    continue
                 if self.implied(self.sub_term(smt.cls_of(Val.r(v)), K)):
                     cands.append(K)
             if cands:
